@@ -10,12 +10,12 @@ from common import ToolError, harness, load_seeds, seed_records, write_ndjson, l
 import subprocess
 
 
-def mc_gencache(ctx, keymode, expect_fail=False):
+def mc_gencache(ctx, keymode, expect_fail=False, sigmode="full"):
     import fen as fenlib
     p = fenlib.parse("4k3/1p5p/8/8/8/8/P7/4K3 w - -")
     p["name"] = "gencache"
     sp = write_ndjson(ctx.path("gc_seeds.ndjson"), [p])
-    cfg = tlc.write_cfg("mc_gencache_%d.cfg" % os.getpid(), 'SPECIFICATION Spec\nCONSTANTS KeyMode = "%s"\n RegKeyMode = "position+side"\n MaxDepth = 4\nINVARIANT CacheCoherent\nCHECK_DEADLOCK FALSE\n' % keymode)
+    cfg = tlc.write_cfg("mc_gencache_%d.cfg" % os.getpid(), 'SPECIFICATION Spec\nCONSTANTS KeyMode = "%s"\n RegKeyMode = "position+side"\n MaxDepth = 4\n SigMode = "%s"\nINVARIANT CacheCoherent\nCHECK_DEADLOCK FALSE\n' % (keymode, sigmode))
     r = tlc.run("MC_GenCache", cfg, env={"SEEDS": sp}, workers=1, stack="64m", timeout=900)
     os.unlink(cfg)
     return r
@@ -31,7 +31,10 @@ def c02(ctx):
     neg = mc_gencache(ctx, "accumulate")
     if neg.violated != "CacheCoherent":
         raise ToolError("negative control failed: stale-ep key design not rejected by CacheCoherent")
-    ctx.extra["design_level"] = "MC_GenCache: all engine states within 4 plies of a K+3P seed: no two share (key, colour) with different answers; accumulate-mode control rejected"
+    neg2 = mc_gencache(ctx, "retire", sigmode="placement")
+    if neg2.violated != "CacheCoherent":
+        raise ToolError("negative control failed: a cache indexed by a placement-only signature not rejected by CacheCoherent")
+    ctx.extra["design_level"] = "MC_GenCache: all engine states within 4 plies of a K+3P seed: no two share (key, colour) with different answers; accumulate-mode control and placement-only-signature control rejected"
     seeds_path = write_ndjson(ctx.path("seeds.ndjson"), seed_records(load_seeds()))
     # the long-lived generator keeps what it has answered (about 25 KB a node): each recording stays below
     # ~0.5 M nodes; the thorough tier makes two recordings (all seeds a ply deeper / the perft suite deeper still)
